@@ -43,4 +43,22 @@ REGISTRY = {
         "mc": [],
         "assumptions": TOK_ASSUME + ["string equality is decided for ASCII and (in UTF-8 documents) well-formed UTF-8 slices; other slices are compared by range only here and by witnessed decoding under C13"],
     },
+    "C02": {
+        "level": "model_checking",
+        "traces": [{"job": "c02", "module": "TraceRel", "cfg": "TraceRel.cfg", "timeout": 1200, "timeout_thorough": 10800}],
+        "mc": [],
+        "assumptions": ["the relation (equality up to text fragmentation) is decided by TLC on observations of the real code; identical observations are judged once", "a failing (ambiguity) run is compared on result and events only: how much output had left the rewriter is schedule-dependent by nature"],
+    },
+    "C06": {
+        "level": "model_checking",
+        "traces": [{"job": "c06", "module": "TraceRel", "cfg": "TraceRel.cfg", "timeout": 1200, "timeout_thorough": 10800}],
+        "mc": [],
+        "assumptions": ["the relation is decided by TLC on two real observations (H and H+O); only the events of H's handlers and all sink bytes are compared"],
+    },
+    "C09": {
+        "level": "model_checking",
+        "traces": [{"job": "c09", "module": "TraceLat", "cfg": "TraceLat.cfg", "timeout": 1200, "timeout_thorough": 10800}],
+        "mc": [],
+        "assumptions": TOK_ASSUME + ["LookAhead ('a few bytes') is fixed at 6 in spec/TraceLat.tla", "the absolute bound is claimed for HTML-namespace input; inside escaped script data / CDATA only schedule independence is claimed for observer configurations"],
+    },
 }
